@@ -257,6 +257,78 @@ Theorem add_feature_refuted :
     get_features pinned v [rec] None None true = Ok [].
 Proof. exact add_feature_refuted_lemma. Qed.
 
+(** * PHASE 3 (3) - strided views (|step| > 1, either orientation)
+
+    [dabs v k] = absolute coordinate of the residue at plus-oriented index [k]
+    of the view; [end_ok v x r] = [r] is the least plus-index whose residue lies
+    at or after [x].  Proofs/AnnotStrideProofs.v. *)
+From CG3 Require Import Proofs.AnnotStrideProofs.
+
+(** the relative coordinate get_features computes for ANY absolute coordinate -
+    on or off the stride grid - is the least plus-index at or after it: the
+    code's ceiling division does not round wrongly (so no off-grid witness exists) *)
+Theorem strided_relative_coordinate : forall v x, WF v -> 0 < vlen v -> 0 <= x ->
+  exists r, rel_coord v x = Ok r /\ forall k, r <= k <-> x <= dabs v k.
+Proof. exact rel_coord_stride. Qed.
+
+(** the db is queried with [first displayed residue, first + len * |step|)
+    (mirrored on a reversed view, clipped at 0) ... *)
+Theorem strided_query_window : forall v, WF v -> 0 <= offset v -> 0 < vlen v ->
+  query_window v None None =
+    Ok (if is_reversed v then (Z.max (parent_stop v - vlen v * Z.abs (step v)) 0, parent_stop v)
+        else (parent_start v, parent_start v + vlen v * step v)).
+Proof. exact strided_window. Qed.
+
+(** ... which extends past the reported parent segment by less than one stride;
+    membership on a strided view is therefore bounding-box overlap with that
+    slightly longer window (for |step| = 1 it is the displayed segment itself) *)
+Theorem strided_window_overshoot_bound : forall v, WF v -> 0 < vlen v ->
+  parent_stop v <= parent_start v + vlen v * Z.abs (step v) < parent_stop v + Z.abs (step v) /\
+  parent_start v - Z.abs (step v) < parent_stop v - vlen v * Z.abs (step v) <= parent_start v.
+Proof. exact strided_window_overshoot. Qed.
+
+(** HEADLINE 8: on ANY well-formed view - any stride, either orientation, any
+    offset - the Feature get_features builds reads exactly the displayed
+    residues whose absolute coordinate lies inside a span of the feature, in
+    plus order, on the feature's strand (span ends need not lie on the grid) *)
+Theorem strided_feature_slice_spec : forall fx v p f fv,
+  WF v -> 0 < vlen v -> zlen p = seq_len v -> spans_ok 0 (f_spans f) ->
+  feature_on_view fx v f = Ok fv ->
+  exists rs,
+    (forall k, In k (rpositions (vlen v) rs) <->
+       0 <= k < vlen v /\ exists ab, In ab (f_spans f) /\ fst ab <= dabs v k < snd ab) /\
+    fv_minus fv = xorb (f_minus f) (is_reversed v) /\
+    get_slice_str v p fv =
+      Ok (let plus := flat_map (residue p (offset v)) (map (dabs v) (rpositions (vlen v) rs)) in
+          if f_minus f then cmpl (rev plus) else plus).
+Proof. exact strided_get_features_slice. Qed.
+
+(** * PHASE 3 (3b) - query windows given with negative, swapped, zero or omitted bounds
+
+    [win_lo n ws we] / [win_hi n ws we] = the two bounds after Python's
+    [x or default], the wrap of negative values by [len] and the swap *)
+
+(** bounds that land inside the view select the absolute segment of the displayed indices [lo, hi) *)
+Theorem query_window_any_bounds : forall v ws we, contig v -> 0 < vlen v ->
+  0 <= win_lo (vlen v) ws we < vlen v -> win_hi (vlen v) ws we <= vlen v ->
+  query_window v ws we = Ok (abs_window v (win_lo (vlen v) ws we) (win_hi (vlen v) ws we)).
+Proof. exact query_window_any. Qed.
+
+(** bounds outside raise IndexError (including the empty window [start = len]) *)
+Theorem query_window_index_error : forall v ws we, contig v -> 0 < vlen v ->
+  win_lo (vlen v) ws we < 0 \/ vlen v <= win_lo (vlen v) ws we \/ vlen v < win_hi (vlen v) ws we ->
+  query_window v ws we = Err E_Index.
+Proof. exact query_window_raises. Qed.
+
+(** membership for every non-empty window however it is written *)
+Theorem query_membership_any_window : forall fx v db ws we partial l, contig v -> 0 < vlen v ->
+  let lo := win_lo (vlen v) ws we in let hi := win_hi (vlen v) ws we in
+  0 <= lo < hi -> hi <= vlen v -> Forall feat_ok db ->
+  get_features fx v db ws we partial = Ok l ->
+  forall k, In k (map fst l) <->
+    exists f, 0 <= k /\ nth_error db (Z.to_nat k) = Some f /\ box_matches partial (abs_window v lo hi) f.
+Proof. exact query_membership_any. Qed.
+
 (** * PHASE 2 - features of a sequence seen through an alignment
 
     Model/AnnotAln.v transcribes [Alignment._get_seq_features] ([aln_feature]),
@@ -411,3 +483,82 @@ Theorem alignment_view_features : forall fx strs n ops rows r f partial fv,
       projected_map r am = Ok pm /\ den pm = den (fmap_of (vlen v) (fv_map fv))
   else aln_feature fx r f partial = Ok None.
 Proof. exact alignment_view_features_lemma. Qed.
+
+(** * PHASE 3 (1) - copies keep what every feature denotes
+
+    [seq_step] = slice / rc / copy(sliced=True|False) / copy.deepcopy of a
+    Sequence (also: of a member of a SequenceCollection, whose deepcopy / copy
+    copy each member); [alhop] = slice / rc / deepcopy(sliced) / copy() of an
+    Alignment; [RH p0 n r] = row invariant relative to the original degapped row. *)
+
+Theorem copies_preserve_features_seq : forall fx p0 off0 steps v0 v p f fv,
+  0 <= off0 -> mk_view (zlen p0) None None None off0 = View.Ok v0 ->
+  fold_left apply_hop (map seq_step_hop steps) (View.Ok (v0, p0)) = View.Ok (v, p) -> 0 < vlen v ->
+  spans_ok 0 (f_spans f) -> feature_on_view fx v f = View.Ok fv ->
+  fv_minus fv = xorb (f_minus f) (is_reversed v) /\
+  get_slice_str v p fv = View.Ok (denoted p0 off0 (parent_start v) (parent_stop v) f).
+Proof. exact copies_preserve_features_seq_lemma. Qed.
+
+(** rows of an alignment through any history of slices, rc and copies *)
+Theorem alignment_copy_rows_invariant : forall ops n (p0s : list (list Z)) rows rows',
+  Forall2 (fun p0 r => RH p0 n r) p0s rows -> hhist_ok n ops ->
+  fold_left apply_alhop ops (Ok rows) = Ok rows' ->
+  Forall2 (fun p0 r => RH p0 (hhist_len n ops) r) p0s rows'.
+Proof. exact alignment_copy_history. Qed.
+
+(** HEADLINE 9: every history of alignment slices, reverse complements,
+    deepcopy(sliced=True|False) and copy(): on every row still displaying
+    residues every feature is returned under the same condition, reads the same
+    columns, and its sequence-level slice is the ORIGINAL row's residues
+    restricted to the displayed segment (the sliced deepcopy re-bases the row's
+    sequence; the annotation offset it hands on keeps the coordinates absolute) *)
+Theorem copies_preserve_features_aln : forall fx strs n ops rows i s r f partial fv,
+  Forall (fun s => zlen s = n) strs -> hhist_ok n ops ->
+  fold_left apply_alhop ops (mapM (row_of_string KDna) strs) = Ok rows ->
+  nth_error strs i = Some s -> nth_error rows i = Some r ->
+  0 < vlen (sv (adata r)) -> spans_ok 0 (f_spans f) ->
+  feature_on_view fx (sv (adata r)) f = View.Ok fv ->
+  let v := sv (adata r) in
+  fv_minus fv = xorb (f_minus f) (is_reversed v) /\
+  get_slice_str v (parent (adata r)) fv = View.Ok (denoted (strip s) 0 (parent_start v) (parent_stop v) f) /\
+  if db_match partial (parent_start v) (parent_stop v) f then
+    exists am pm, aln_feature fx r f partial = Ok (Some (fv_minus fv, am)) /\
+      Forall2 (cell_column (abs (amap r))) (den am) (den (fmap_of (vlen v) (fv_map fv))) /\
+      projected_map r am = Ok pm /\ den pm = den (fmap_of (vlen v) (fv_map fv))
+  else aln_feature fx r f partial = Ok None.
+Proof. exact copies_preserve_features_aln_lemma. Qed.
+
+(** * PHASE 3 (2) - the spans Feature.get_slice() reads on the alignment
+
+    the alignment-level map has forward spans only, so its coordinate ranges,
+    read in order, enumerate exactly the Some-cells of the map in order: every
+    span is a run of consecutive columns of the cell-level denotation and
+    nothing else is read.  Runs that touch are not merged (abutting feature
+    spans stay two spans), so "maximal runs" holds only up to such touching. *)
+Theorem aln_map_spans_are_cell_runs : forall fx r spans minus fv am,
+  IndelMapSpec.WF (amap r) ->
+  Annot.make_feature fx (vlen (sv (adata r))) (is_reversed (sv (adata r))) spans minus = View.Ok fv ->
+  aligned_make_feature fx r spans minus = Ok (fv_minus fv, am) ->
+  forallb fwd (fspans am) = true /\
+  flat_map (fun se => zrange (fst se) (snd se)) (fm_get_coordinates (fm_without_gaps am)) = somes (den am).
+Proof. exact aln_map_spans_read_cells. Qed.
+
+(** the per-row strings of [feature.get_slice()] on the alignment (C03's
+    statement for Aligned[FeatureMap] applied to the map's coordinate ranges):
+    every row is its gapped string read at the columns the map denotes, reverse
+    complemented for a reversed feature.  Hypothesis [segs_ok]: the coordinate
+    ranges are non-empty, ascending and inside the alignment - monitored by the
+    correspondence check on every alignment-level feature it sees (C08 specifies
+    composition at cell level only, so this is not derived here). *)
+From CG3 Require Import Proofs.IndelMapBounded Proofs.AnnotAlnSpansProofs.
+
+Theorem aln_feature_slice_row_strings : forall fx r spans minus fv am t,
+  IndelMapSpec.WF (amap r) ->
+  Annot.make_feature fx (vlen (sv (adata r))) (is_reversed (sv (adata r))) spans minus = View.Ok fv ->
+  aligned_make_feature fx r spans minus = Ok (fv_minus fv, am) ->
+  RowWF t -> skind (adata t) = KDna ->
+  fm_get_coordinates (fm_without_gaps am) <> [] ->
+  segs_ok 0 (row_len t) (fm_get_coordinates (fm_without_gaps am)) ->
+  row_feature_slice t (fv_minus fv) am =
+    Ok (let s := gather (row_str t) (somes (den am)) in if fv_minus fv then rc_str KDna s else s).
+Proof. exact aln_feature_slice_rows. Qed.
